@@ -71,6 +71,7 @@ def run(ctx) -> None:
            '_assign_value tests str, then Any, then packs other messages', 3)
   r1_codec(ctx)
   r2_upsert(ctx)
+  r2_every_new_entry(ctx)
   r3_atomic(ctx)
   r4_policy_ns(ctx)
   r5_pairing(ctx)
@@ -358,6 +359,47 @@ def r11_clients_read_through(ctx) -> None:
                   construct=f'{ci.name}.{m.name}:cached', func=m.qualname)
   if n < 3:
     raise AnalysisError(f'only {n} materialize*() returns found in the client classes')
+
+
+def r2_every_new_entry(ctx) -> None:
+  """The merge stores every entry of the update: no entry is left out on its own content (size, namespace, value)."""
+  mod = ctx.index.need_module(MDUTIL)
+  n = 0
+  for fname in ('merge_study_metadata', 'merge_trial_metadata'):
+    fi = mod.functions.get(fname)
+    if fi is None:
+      raise AnalysisError(f'{fname} not found')
+    newp = fi.params[1]
+    g = cfgmod.CFG(fi.node)
+    for lp in (x for x in ast.walk(fi.node) if isinstance(x, ast.For)):
+      if not any(isinstance(y, ast.Name) and y.id == newp for y in ast.walk(lp.iter)):
+        continue
+      hdr = next((nd for nd in g.nodes if nd.kind == 'for' and nd.ast is lp), None)
+      stores = [nd for nd in g.nodes if nd.loops and nd.loops[-1] is lp and nd.kind == 'stmt' and isinstance(nd.ast, ast.Assign)
+                and any(isinstance(t, ast.Subscript) for t in nd.ast.targets)]
+      if hdr is None or not stores:
+        continue
+      n += 1
+      selecting = []
+      for t in [nd for nd in g.nodes if nd.kind == 'test' and nd.loops and nd.loops[-1] is lp]:
+        reach = {lab: any(s_ in g.reachable([m_ for m_, l2 in t.succs if l2 == lab], blocked=[hdr], include_starts=True) for s_ in stores)
+                 for lab in ('T', 'F')}
+        if reach['T'] != reach['F'] and 'trial_id' not in unparse(t.ast, 0):
+          selecting.append(t)
+      skipped = bool(selecting)
+      ctx.check(not skipped, 'R2', f'{fname}: every entry of the update is stored', lp, 'each pass through the loop over the new entries stores one',
+                'an entry of the update can be left out (a path through the loop stores nothing): the write is acknowledged but reading the '
+                'key back gives the previous value', construct=f'{fname}:entry-skipped', func=fi.qualname)
+    for x in ast.walk(fi.node):
+      comp = x if isinstance(x, (ast.DictComp, ast.GeneratorExp, ast.ListComp)) else None
+      if comp is not None and any(isinstance(y, ast.Name) and y.id == newp for gen in comp.generators for y in ast.walk(gen.iter)):
+        n += 1
+        filt = [gen for gen in comp.generators if gen.ifs]
+        ctx.check(not filt, 'R2', f'{fname}: every entry of the update is stored (comprehension)', comp, 'no filter on the new entries',
+                  f'`{unparse(comp, 70)}` filters the entries of the update: a filtered entry is acknowledged but never stored',
+                  construct=f'{fname}:entry-filtered', func=fi.qualname)
+  if n < 2:
+    raise AnalysisError(f'merge functions: only {n} passes over the new entries found')
 
 
 def r8_trial_id_presence(ctx) -> None:
